@@ -238,7 +238,7 @@ Definition do_call (cfg : cl_cfg) (s : cl_state) (call : N) (a : api) : CR :=
         end
       | Awake =>
         (* startSleep *)
-        (c_arm (c_set_state s Asleep) (CtmSleepWake g) ms, [])
+        (c_arm (c_set_state (c_set_obj s g (CxSleep call CtSleeping 0 ms)) Asleep) (CtmSleepWake g) ms, [])
       | _ => (s, ret s call RState)       (* the dead transaction stays in the DISCONNECT slot *)
       end
     end
@@ -347,8 +347,11 @@ Definition handle_packet (cfg : cl_cfg) (s : cl_state) (p : packet) : CR :=
     end
   | Register tid mid name =>
     match reg_lookup (cl_registered s) name with
-    | Some _ =>
-      match c_send s (Regack tid mid RC_INVALID_TOPIC_ID) with (o, true) => (s, o) | (o, false) => loop_err s o end
+    | Some i =>
+      (* the same registration again (the gateway retransmits its REGISTER when the REGACK got lost)
+         is accepted again; another topic ID for a known name is rejected *)
+      match c_send s (Regack tid mid (if i =? tid then RC_ACCEPTED else RC_INVALID_TOPIC_ID)) with
+      | (o, true) => (s, o) | (o, false) => loop_err s o end
     | None =>
       let s := s <| cl_registered := reg_set (cl_registered s) name tid |> in
       match c_send s (Regack tid mid RC_ACCEPTED) with (o, true) => (s, o) | (o, false) => loop_err s o end
@@ -472,9 +475,10 @@ Definition handle_packet (cfg : cl_cfg) (s : cl_state) (p : packet) : CR :=
       | Some ((CxRetry _ 6 _ _ _ _ _) as t) | Some ((CxRetry _ 7 _ _ _ _ _) as t) => complete cfg s g t ROk false
       | Some (CxSleep call st n ms) =>
         if negb (ct_state_eqb st CtAwaitDisconnect) then (s, []) else
-        (* stopTimer; startSleep *)
+        (* stopTimer; startSleep (which records that the transaction is sleeping: a repeated
+           DISCONNECT does not restart the sleep) *)
         let s := c_disarm s g in
-        (c_arm (c_set_state s Asleep) (CtmSleepWake g) ms, [])
+        (c_arm (c_set_state (c_set_obj s g (CxSleep call CtSleeping n ms)) Asleep) (CtmSleepWake g) ms, [])
       | _ => (s, [])
       end
     end
